@@ -52,6 +52,15 @@ def main():
     finally:
         sh('git -C /repo checkout -- .')
         sh('git -C /repo clean -fdq -- plasTeX')
+    if '--refresh' in flags:
+        # d is an already kept /verif/seeded/<id> directory: record the new result, keep the earlier one as history
+        v = meta.setdefault('verified_by_pvmon', {})
+        old = v.get('checks')
+        if old and old != res['checks']:
+            v.setdefault('earlier_results', []).append(old)
+        v.update({'demo_exit_on_unchanged_tree': res.get('demo_unchanged_rc'), 'demo_exit_with_patch': res.get('demo_patched_rc'),
+                  'pinned_suite_passes_with_patch': res.get('baseline_ok', v.get('pinned_suite_passes_with_patch')), 'checks': res['checks']})
+        json.dump(meta, open(os.path.join(d, 'meta.json'), 'w'), indent=1)
     if '--keep' in flags:
         import shutil
         name = meta['property']
